@@ -22,8 +22,17 @@ package check
 //@   trusted
 //@   ensures result1 == nil ==> result0 == issuerOf(check)
 //@   modifies nothing
-//@ func (*Check).LockPubKey
+//@ # C21: the lock public key is recovered from this check's own lock and hash and from nothing else (no memoisation
+//@ # across checks): stated for locks of full length (65 bytes or more, no left padding)
+//@ ghost hashNoLock(c *Check) types.Hash
+//@ func (*Check).HashWithoutLock
 //@   trusted
+//@   ensures result == hashNoLock(check)
+//@   modifies nothing
+//@ func (*Check).LockPubKey
+//@   serves C21
+//@   requires check != nil && check.Lock != nil
+//@   ensures own: result1 == nil && len(bigenc(abs(check.Lock.val))) >= 65 ==> bytestr(result0) == ecrec(bytestr(hashNoLock(check)), bigenc(abs(check.Lock.val)))
 //@   modifies nothing
 
 //@ # ASSUMED: the identifying hash of a check is a function of the check (RLP + Keccak are uninterpreted here)
